@@ -1983,6 +1983,12 @@ class Parallel(Logger):
                     )
                 raise RuntimeError(msg)
             self._running = True
+            # Let's create an ID that uniquely identifies the current call. If
+            # the previous call was interrupted early and the same instance is
+            # immediately reused, this id is used to prevent workers that were
+            # concurrently finalizing a task from the previous call to run the
+            # callback. It has to change before the flags below are reset.
+            self._call_id = uuid4().hex
 
         # Counter to keep track of the task dispatched and completed.
         self.n_dispatched_batches = 0
@@ -2024,14 +2030,6 @@ class Parallel(Logger):
             output = self._get_sequential_output(iterable)
             next(output)
             return output if self.return_generator else list(output)
-
-        # Let's create an ID that uniquely identifies the current call. If the
-        # call is interrupted early and that the same instance is immediately
-        # reused, this id will be used to prevent workers that were
-        # concurrently finalizing a task from the previous call to run the
-        # callback.
-        with self._lock:
-            self._call_id = uuid4().hex
 
         # self._effective_n_jobs should be called in the Parallel.__call__
         # thread only -- store its value in an attribute for further queries.
